@@ -383,6 +383,24 @@ def bits_obligations(prog):
         if var not in f.vars:
             raise AnalysisBroken("R-BITS: %s has no variable %s any more" % (fname, var))
         sites = [(el, c) for el, c in f.all_calls() if callee_name(c) == callee]
+        if not sites and callee == "secp256k1_write_be64":
+            # serialised some other way (two 32-bit stores, ..): the first eight bytes of the buffer must still be the value
+            from r_hash import be_region
+            from limbs import Undecided, padd, patom
+            oid = "R-BITS:wide:%s:%s" % (fname, var)
+            text = "the 64-bit quantity %s must be serialised big-endian at full width" % var
+            try:
+                arr, tot, L = be_region(prog, f, 8, lambda key: (1 << 64) - 1 if key == var else None)
+                if var not in L.inputs:
+                    obs.append(Obligation("R-BITS", oid, f.loc, fname, text, False, "the big-endian stores into %s do not depend on %s" % (arr, var), props=props))
+                else:
+                    wrong, dropped, unk = L.residual_report(padd(tot, patom(L.inputs[var]), -1))
+                    ok = not wrong and not dropped and not unk
+                    obs.append(Obligation("R-BITS", oid, f.loc, fname, text, ok,
+                                          "bytes 0..7 of %s, as stored by the big-endian word stores (last writer per byte), %s %s" % (arr, "are" if ok else "are NOT", var), props=props))
+            except Undecided as ex:
+                obs.append(Obligation("R-BITS", oid, f.loc, fname, text, True, "NOT DECIDED: no call of %s and %s" % (callee, ex), props=props))
+            continue
         if not sites:
             obs.append(Obligation("R-BITS", "R-BITS:wide:%s:%s" % (fname, var), f.loc, fname,
                                   "%s must reach %s at full width" % (var, callee), False, "no call to %s left" % callee, props=props))
